@@ -129,6 +129,7 @@ impl Socket for TcpSocketImpl {
     fn receive(&mut self, size: Option<usize>) -> GDResult<Vec<u8>> {
         #[cfg(gamedig_verif)]
         if let Some((conn, _)) = &self.verif_conn {
+            crate::verif_hook::note_read_timeout(self.socket.read_timeout());
             return crate::verif_hook::receive(*conn, true, size, DEFAULT_PACKET_SIZE);
         }
 
@@ -208,6 +209,7 @@ impl Socket for UdpSocketImpl {
     fn receive(&mut self, size: Option<usize>) -> GDResult<Vec<u8>> {
         #[cfg(gamedig_verif)]
         if let Some(conn) = self.verif_conn {
+            crate::verif_hook::note_read_timeout(self.socket.read_timeout());
             return crate::verif_hook::receive(conn, false, size, DEFAULT_PACKET_SIZE);
         }
 
